@@ -94,8 +94,10 @@ def resume_job(job):
             for f in all_mids[-3:]:
                 plan.append((f, 4, "|n_total=4"))                                           # late periodic checkpoints: possibly nothing left to do
             plan.append((files[-1], max(4, job["n_total"] // 2), "|n_total/2"))            # nothing left to do: zero iterations
+            if mids:
+                plan.append((mids[len(mids) // 2], 2 * job["n_total"], "|n_particles*2"))   # resumed by a sampler with another batch size
         for f, nt, tag in plan:
-            s2, _ = drivers.build_sampler(conf, rec, out_dir=out_dir)
+            s2, _ = drivers.build_sampler(conf_np2 if tag == "|n_particles*2" else conf, rec, out_dir=out_dir)
             rec.attach(s2)
             np.random.seed(12345)  # the ambient stream of the resuming process is unrelated
             _, _, tr2 = drivers.record_run(conf_np2 if tag == "|n_particles*2" else conf, n_total=nt, seed=12345, label=job["label"] + "|resume:" + os.path.basename(f) + tag,
